@@ -6,6 +6,7 @@ equal values or the same error class citing the same positions; dump_function /
 dump_json_function write to a file name, a Path, an open text stream and a
 StringIO exactly the bytes of dumps_function / dumps_json_function.
 """
+import codecs
 import io
 import os
 import pathlib
@@ -155,6 +156,13 @@ def check_load(case, ctx):
         ('binary_stream', from_binary_stream),
         ('BytesIO', lambda: load(io.BytesIO(data))),
     ]
+    if not text.startswith('﻿') and all(ord(ch) < 0x10000 or True for ch in text):
+        # a binary stream may also be UTF-16 with a byte order mark
+        try:
+            d16 = codecs.BOM_UTF16_LE + text.encode('utf-16-le')
+            sources.append(('BytesIO_utf16', lambda: load(io.BytesIO(d16))))
+        except UnicodeEncodeError:
+            pass
     outs = []
     for name, fn in sources:
         m.reset()
